@@ -1430,6 +1430,59 @@ def c19_sites(repo_root, tier):
             if isinstance(n, ast.Call) and ast.unparse(n.func) == "any":
                 g = n.args[0]
                 ok = ok and isinstance(g, ast.GeneratorExp) and not g.generators[0].ifs and not isinstance(g.elt, ast.Name)
+    # exact decimal arithmetic: binary floating point (+ - * %) is applied to two integers only; any float operand goes
+    # through Decimal(str(x)), the decimal value the template author sees
+    mm = repo.module("liquid2.builtin.filters.math")
+    for fname in ("plus", "minus", "times", "modulo"):
+        fn = mm.find(fname) if mm else None
+        if fn is None:
+            _ob(obs, f"liquid2.builtin.filters.math:{fname}/site.native-arithmetic-only-on-integers", False, "not found")
+            continue
+        params = [a.arg for a in fn.args.args][:2]
+        guard = {f"isinstance({params[0]}, int) and isinstance({params[1]}, int)", f"isinstance({params[1]}, int) and isinstance({params[0]}, int)"}
+        bad = []
+        n_native = n_dec = 0
+        for n in ast.walk(fn):
+            if isinstance(n, ast.BinOp) and isinstance(n.left, ast.Name) and isinstance(n.right, ast.Name) and {n.left.id, n.right.id} <= set(params):
+                n_native += 1
+                inside = any(isinstance(i, ast.If) and ast.unparse(i.test) in guard and any(x is n for st in i.body for x in ast.walk(st)) for i in ast.walk(fn))
+                if not inside:
+                    bad.append(f"@{n.lineno}: {ast.unparse(n)}")
+            if isinstance(n, ast.BinOp) and ast.unparse(n.left) == f"decimal.Decimal(str({params[0]}))" and ast.unparse(n.right) == f"decimal.Decimal(str({params[1]}))":
+                n_dec += 1
+        ok2 = not bad and n_native == 1 and n_dec == 1
+        _ob(obs, f"liquid2.builtin.filters.math:{fname}/site.native-arithmetic-only-on-integers", ok2,
+            "the native operator is applied under `isinstance(left, int) and isinstance(right, int)` only; otherwise Decimal(str(left)) op Decimal(str(right))" if ok2
+            else f"native binary floating-point arithmetic outside the both-integers guard: {bad or 'pattern not found'}")
+    # sorting: ordered, stable permutations that never compare the items themselves when a key is given
+    sf = repo.module("liquid2.builtin.filters.sorting_filters")
+    n_sorted = 0
+    bad = []
+    for qual, cls, fn, parent in (function_defs(sf) if sf else []):
+        for call in _calls(fn):
+            if not (isinstance(call.func, ast.Name) and call.func.id == "sorted") and not (isinstance(call.func, ast.Attribute) and call.func.attr == "sort"):
+                continue
+            n_sorted += 1
+            if isinstance(call.func, ast.Attribute):
+                bad.append(f"{qual}@{call.lineno}: in-place .sort()")
+                continue
+            kw = {k.arg: k.value for k in call.keywords}
+            arg = ast.unparse(call.args[0]) if call.args else ""
+            if "key" not in kw:
+                # plain values: allowed only as sorted(left) inside try/except TypeError -> LiquidTypeError
+                guarded = any(isinstance(t, ast.Try) and any(x is call for st in t.body for x in ast.walk(st))
+                              and any(h.type is not None and "TypeError" in ast.unparse(h.type) for h in t.handlers) for t in ast.walk(fn))
+                if not (arg == "left" and guarded):
+                    bad.append(f"{qual}@{call.lineno}: sorted({arg}) without key= compares the elements themselves")
+                continue
+            if arg == "items":
+                # decorated (item, key) pairs: the key function reads element 1 only
+                k = ast.unparse(kw["key"])
+                reads0 = any(isinstance(x, ast.Subscript) and isinstance(x.slice, ast.Constant) and x.slice.value == 0 for x in ast.walk(kw["key"]))
+                if not (k == "itemgetter(1)" or ("[1]" in k and not reads0)):
+                    bad.append(f"{qual}@{call.lineno}: key={k} does not select the computed key of the (item, key) pair")
+    _ob(obs, "liquid2.builtin.filters.sorting_filters/site.sort-by-key-only", not bad and n_sorted >= 9,
+        f"{n_sorted} sorted() calls: each orders by a key function (stable, no comparison of the items themselves); the key-less sort of plain values converts TypeError" if not bad else str(bad[:3]))
     _ob(obs, "liquid2.builtin.filters.find_filters:HasFilter.__call__/site.any-over-matches", ok, "has reduces any() over the match tests, not over the matching items (whose own truthiness is irrelevant)")
     return {"obligations": obs, "samples": [], "trusted": ["user __getitem__ is deterministic (the same lookup gives the same value in both forms)"], "functions": [],
             "assumptions": [], "not_covered": ["sort/uniq/compact/map/concat/slice laws, split/join, url and base64 inverses, strip/replace/remove: not under contract"]}
